@@ -335,6 +335,32 @@ def check_C04(env):
             yield case
 
 
+    # an arm added after fit: whatever it builds (a tree, a model) is seeded from the bandit, not from numpy's global state
+    for lp, nbh in [(TREE_LPS[0], ['TreeBandit', {}]), (TREE_LPS[1], ['TreeBandit', {}])]:
+        if not in_focus(env, lp, nbh):
+            continue
+        # two identical feature columns: every split has a tied candidate, so an unseeded tree picks by global state
+        base = rand_rows(rng, 10, ARMS, False, 1)
+        dup = lambda rows: [rows[0], rows[1], [[x[0], x[0]] for x in rows[2]]]      # noqa: E731
+        more = rand_rows(rng, 8, [4], False, 1)
+        more[1] = [float(i % 3) + 0.25 * i for i in range(8)]
+        more[2] = [[float(i)] for i in range(8)]
+        calls = [['fit'] + dup(base), ['add_arm', 4], ['partial_fit'] + dup(more)]
+        case = {'arms': ARMS, 'lp': lp, 'np': nbh, 'calls': calls, 'seed': 11}
+        outs = []
+        for g in range(6):
+            m = build(case)
+            np.random.seed(g)                  # other code in the process uses numpy's global generator
+            drive(m, calls)
+            qs = [[0.5, 3.5], [3.5, 0.5], [6.5, 1.5], [1.5, 6.5], [2.5, 5.5]]
+            outs.append([m.predict_expectations(qs), m.predict(qs)])
+        for o in outs[1:]:
+            if not same_result(o, outs[0], 0):
+                raise Failure('C04', 'equally seeded TreeBandit bandits differ when numpy\'s global generator is in a different '
+                              'state (an arm added after fit)', case, o, outs[0], 'treebandit')
+        yield case
+
+
 # =========================================================================================== C05
 def check_C05(env):
     rng = env['rng']
@@ -916,7 +942,9 @@ def check_C12(env):
         if not in_focus(env, lp, nbh):
             continue
         for h in ctx_histories(rng, False, 1):
-            h = h + [['add_arm', 4]]
+            # arm 4 is first seen with a single observation (one leaf), then with a batch that makes its tree split
+            h = h + [['add_arm', 4], ['partial_fit', [4], [10], [[0, 0]]],
+                     ['partial_fit', [4, 4, 4, 4], [1, 2, 9, 8], [[-3, -3], [-2, -3], [3, 3], [3, 2]]]]
             case = {'arms': ARMS, 'lp': lp, 'np': nbh, 'calls': h}
             m = build(case)
             ref = oracle.RefBandit(ARMS, lp, nbh)
@@ -1024,8 +1052,42 @@ def check_C13(env):
         yield case
 
 
+def check_C12_binarizer(env):
+    """Clusters: every cluster's policy sees the rewards converted exactly once, also when the binarizer arrives by add_arm"""
+    rng = env['rng']
+    for nbh in NBH_OTHER[1:3]:
+        lp, plain = ['ThompsonSampling', {}], ['ThompsonSampling', {}]
+        if not in_focus(env, lp, nbh):
+            continue
+        rows1 = rand_rows(rng, 12, ARMS, True, 2)
+        rows2 = rand_rows(rng, 8, ARMS + [9], False, 2)
+        conv = [rows2[0], [core.binz_arm(a, r) for a, r in zip(rows2[0], rows2[1])], rows2[2]]
+        case = {'arms': ARMS, 'lp': lp, 'np': nbh, 'seed': 9,
+                'calls': [['fit'] + rows1, ['add_arm', 9, 'binz_arm'], ['partial_fit'] + rows2]}
+        a, b = build(case), build(case)
+        call(a, ['fit'] + rows1)
+        call(b, ['fit'] + rows1)
+        a.add_arm(9, core.binz_arm)
+        b.add_arm(9)
+        call(a, ['partial_fit'] + rows2)
+        call(b, ['partial_fit'] + conv)
+        ra, rb = observe(a, lp, nbh), observe(b, plain, nbh)
+        if not same_result(ra, rb, 0):
+            raise Failure('C12', 'Clusters/ThompsonSampling: after add_arm(arm, binarizer) and partial_fit the cells do not hold '
+                          'the once-converted rewards (differs from a binarizer-free bandit fed the converted rewards)', case,
+                          ra, rb, 'clusters')
+        yield case
+
+
+def _check_C12_all(env):
+    for c in check_C12(env):
+        yield c
+    for c in check_C12_binarizer(env):
+        yield c
+
+
 CHECKS = {'C01': check_C01, 'C02': check_C02, 'C03': check_C03, 'C04': check_C04, 'C05': check_C05, 'C06': check_C06,
-          'C07': check_C07, 'C08': check_C08, 'C09': check_C09, 'C10': check_C10, 'C11': check_C11, 'C12': check_C12,
+          'C07': check_C07, 'C08': check_C08, 'C09': check_C09, 'C10': check_C10, 'C11': check_C11, 'C12': _check_C12_all,
           'C13': check_C13, 'C14': check_C14, 'C17': check_C17, 'C18': check_C18, 'C19': check_C19, 'C20': check_C20}
 
 
@@ -1051,7 +1113,7 @@ SIM_DETERMINISTIC = {0, 1, 4, 5, 6, 7, 8, 9, 10}
 def _run_sim(case, quiet=True):
     import logging
     from mabwiser.simulator import Simulator
-    bandits = [('b%d' % i, build({'arms': ARMS, 'lp': lp, 'np': nbh, 'seed': case['seed']}))
+    bandits = [('b%d' % i, build({'arms': ARMS, 'lp': lp, 'np': nbh, 'seed': case['seed'], 'n_jobs': case.get('n_jobs', 1)}))
                for i, (lp, nbh) in enumerate(case['bandits'])]
     import contextlib
     import io
@@ -1070,17 +1132,17 @@ def _run_sim(case, quiet=True):
 
 def _api_twin(case, lp, nbh, train, test):
     """drive an identically configured bandit through the public API with the simulator's split and protocol"""
-    m = build({'arms': ARMS, 'lp': lp, 'np': nbh, 'seed': case['seed']})
+    m = build({'arms': ARMS, 'lp': lp, 'np': nbh, 'seed': case['seed'], 'n_jobs': case.get('n_jobs', 1)})
     ctx = needs_ctx(lp, nbh)
     td = [case['d'][i] for i in train]
     tr = [case['r'][i] for i in train]
-    tx = [case['x'][i] for i in train]
+    tx = [case['x'][i] for i in train] if case['x'] is not None else None
     m.fit(td, tr, tx if ctx else None)
     preds, exps = [], []
     bs = case['batch_size'] or len(test)
     for s in range(0, len(test), bs):
         rows = test[s:s + bs]
-        qx = [case['x'][i] for i in rows]
+        qx = [case['x'][i] for i in rows] if case['x'] is not None else None
         if ctx:
             p = m.predict(qx)
             p = p if isinstance(p, list) else [p]
@@ -1096,17 +1158,20 @@ def _api_twin(case, lp, nbh, train, test):
 
 def check_C15(env):
     rng = env['rng']
-    for is_ordered, batch_size, is_quick in ((True, 0, False), (False, 0, True), (True, 3, False), (True, 10, True),
-                                             (False, 4, False), (True, 1, True)):
+    for is_ordered, batch_size, is_quick, n_jobs in ((True, 0, False, 1), (False, 0, True, 1), (True, 3, False, 1),
+                                                     (True, 10, True, 1), (False, 4, False, 1), (True, 1, True, 1),
+                                                     (True, 0, False, 2), (True, 5, True, 3)):
         d, r, x = _sim_data(rng)
         for group in ([0, 1, 4, 6, 8, 7], [2, 3, 5, 9, 10], [6], [7, 6]):
+            if n_jobs > 1 and group != [0, 1, 4, 6, 8, 7]:
+                continue
             bandits = [SIM_BANDITS[i] for i in group if in_focus(env, *SIM_BANDITS[i])]
             if not bandits:
                 continue
             if batch_size and any(i not in SIM_DETERMINISTIC for i in group):
                 continue         # online protocol compared for deterministic policies only (the order of draws is not specified)
             case = {'bandits': bandits, 'd': d, 'r': r, 'x': x, 'test_size': 0.4, 'is_ordered': is_ordered,
-                    'batch_size': batch_size, 'is_quick': is_quick, 'seed': 21}
+                    'batch_size': batch_size, 'is_quick': is_quick, 'seed': 21, 'n_jobs': n_jobs}
             sim = _run_sim(case)
             test = [int(i) for i in sim.test_indices]
             train = [i for i in range(len(d)) if i not in set(test)]
@@ -1128,11 +1193,15 @@ def check_C15(env):
 
 def check_C16(env):
     rng = env['rng']
-    for is_ordered, batch_size, test_size in ((True, 0, 0.3), (False, 0, 0.25), (True, 4, 0.5), (False, 5, 0.4), (True, 7, 0.45)):
+    for is_ordered, batch_size, test_size, with_ctx in ((True, 0, 0.3, True), (False, 0, 0.25, True), (True, 4, 0.5, True),
+                                                        (False, 5, 0.4, True), (True, 7, 0.45, True), (False, 0, 0.3, False),
+                                                        (False, 3, 0.35, False), (True, 0, 0.3, False)):
         d, r, x = _sim_data(rng, 23)
         if is_ordered:
             d = [1 if v == 3 else v for v in d[:14]] + d[14:]         # arm 3 absent from the training rows
-        bandits = [SIM_BANDITS[i] for i in (0, 1, 6)]
+        bandits = [SIM_BANDITS[i] for i in ((0, 1, 6) if with_ctx else (0, 1, 2))]
+        if not with_ctx:
+            x = None
         case = {'bandits': bandits, 'd': d, 'r': r, 'x': x, 'test_size': test_size, 'is_ordered': is_ordered,
                 'batch_size': batch_size, 'is_quick': False, 'seed': 5}
         sim = _run_sim(case)
@@ -1184,6 +1253,25 @@ def check_C16(env):
                     raise Failure('C16', 'min / mean / max analyses of arm %r are not ordered' % a, case,
                                   [mn[a], av[a], mx[a]], None, 'simulator')
         yield case
+    # online simulation of a neighbourhood bandit over ThompsonSampling(binarizer): the raw rewards the simulator keeps for
+    # its neighbourhood statistics stay row-aligned with the stored (converted) history after every batch
+    d, r, x = _sim_data(rng, 30)
+    bandits = [(['ThompsonSampling', {'binarizer': 'binz'}], ['KNearest', {'k': 3, 'metric': 'cityblock'}]),
+               (['ThompsonSampling', {'binarizer': 'binz'}], ['Radius', {'radius': 3.0, 'metric': 'cityblock'}])]
+    case = {'bandits': bandits, 'd': d, 'r': r, 'x': x, 'test_size': 0.5, 'is_ordered': True, 'batch_size': 4,
+            'is_quick': False, 'seed': 5}
+    sim = _run_sim(case)
+    for name, mab in sim.bandits:
+        raw = getattr(mab, 'raw_rewards', None)
+        if raw is None:
+            continue
+        conv = [core.binz(a, v) for a, v in zip(mab.decisions, raw)]
+        if len(raw) != len(mab.rewards) or any(int(c) != int(v) for c, v in zip(conv, mab.rewards)):
+            raise Failure('C16', 'the raw rewards kept by the simulator\'s %s bandit are not aligned with its stored history '
+                          '(binarizer(decision_i, raw_i) != stored reward_i for some row): the neighbourhood statistics credit '
+                          'rewards of other rows' % type(mab).__name__, case, [float(v) for v in raw][:12],
+                          [int(v) for v in mab.rewards][:12], 'simulator')
+    yield case
 
 
 CHECKS['C15'] = check_C15
